@@ -69,15 +69,17 @@ def table(r23):
   return "\n".join(out)
 
 
-t2 = table(sorted(sid for sid in rows if sid.startswith("R") and not sid.startswith(("R5", "R6"))))
+t2 = table(sorted(sid for sid in rows if sid.startswith("R") and not sid.startswith(("R5", "R6", "R7"))))
 t5 = table(sorted(sid for sid in rows if sid.startswith("R5")))
 t6 = table(sorted(sid for sid in rows if sid.startswith("R6")))
+t7 = table(sorted(sid for sid in rows if sid.startswith("R7")))
 p = os.path.join(V, "DESIGN.md")
 s = open(p).read()
 s = put(s, "seed-table", t1)
 s = s.replace("SEED2_TABLE_PLACEHOLDER", t2) if "SEED2_TABLE_PLACEHOLDER" in s else put(s, "seed2-table", t2)
 s = put(s, "seed5-table", t5)
 s = put(s, "seed6-table", t6)
+s = put(s, "seed7-table", t7)
 open(p, "w").write(s)
 print(t1[-300:])
 print(t2[-400:])
